@@ -1049,6 +1049,7 @@ def _loader_fingerprint(S: LoaderSummary) -> Dict[str, Any]:
         "len": sorted((a, b, c) for a, b, c, _ in S.len_checks),
         "type_checks": sorted(set((a, b) for a, b, _ in S.type_checks)),
         "absence": sorted({(repr(p), d) for p, d, _ in S.absence}),
+        "probes": sorted({(repr(p), k) for p, k, _ in S.probes}),
         "forbid_guards": sorted((a, tuple(b), c) for a, b, c, _ in S.forbid_guards),
         "ctor": norm(call) if call is not None else None,
         "defaults": {k: sorted(set(v)) for k, v in sorted(S.defaults.items())},
